@@ -287,6 +287,26 @@ pub fn run(ctx: &Ctx) -> Report {
             for r in [0usize, 1, b - 1] { lens.push((k * b + r, L_COMP)); lens.push((k * b + r, L_COMP | L_ENC)); }
         }
         lens.push((3 * c + 77, 0));
+        // forward hops inside one block with a live decompressor: read a little near the start of the block, then
+        // seek D further (Start and Current), for D = half / a quarter of a block, 64 KiB and every size-like
+        // literal of the tree under test that fits in a block
+        {
+            let mut ds: Vec<usize> = vec![b / 2, b / 4, 65536];
+            ds.extend(crate::gens::extra_bounds().iter().copied().filter(|x| *x >= 4096 && *x + 16384 < b));
+            ds.sort(); ds.dedup();
+            let p = rng.bytes(b + 5000, 1);
+            for stack in [L_COMP, L_COMP | L_ENC] {
+                let mut h = vec![];
+                for (k, d) in ds.iter().enumerate() {
+                    h.extend([HOp::Start(3), HOp::Read(7)]);
+                    if k % 2 == 0 { h.push(HOp::Start((10 + d + 1) as u64)); } else { h.push(HOp::Current((*d + 1) as i64)); }
+                    h.extend([HOp::Read(16), HOp::Current(0)]);
+                }
+                rep.count("hops-inside-a-block");
+                check_case(&mut rep, &mut model, &kc, &p, stack, 0, &mut rng, 0, Some(&h), false);
+                if rep.full() { return rep; }
+            }
+        }
         for (i, (len, stack)) in lens.into_iter().enumerate() {
             let p = rng.bytes(len, if stack & L_COMP != 0 { 2 } else { 3 });
             let with_model = stack == L_ENC && len <= 2 * c + 20;
